@@ -111,6 +111,10 @@ func runC04(c *Ctx) {
 	k.checkEventsRefreshedOnEnable("events-refreshed-on-enable")
 	k.checkBlockingForwarders("blocking-report-forwarded")
 	k.checkCbLoopDrains("cbloop-drains")
+	c.rule("reply-capacity", "(shared with C07) a blocking report carries a reply channel made for that one report (never one kept in longer-lived state and shared between reports: a verdict left behind by an abandoned report would be taken for the next one's)", 1)
+	c07ReplyCapacity(c)
+	c.rule("enable-fastpath", "(shared with C09) EnableVerification answers without asking the monitor only when verification was never delayed, and verifies in place exactly when there is no monitor goroutine: with the delay in force the monitor is always told to start verifying", 1)
+	c09FastpathGuard(c, k, "enable-fastpath")
 
 	// ---- callbacks-see-published -------------------------------------------
 	c04HandlerArgs(c, k)
